@@ -205,6 +205,8 @@ impl LockServer {
             timeout = &self.config.bind_timeout_ms,
             "Acquiring lock"
         );
+        #[cfg(pnordahl_monorail_verif)]
+        crate::verif::point("lock.attempt");
         let timeout_res = tokio::time::timeout(
             self.bind_timeout,
             tokio::net::TcpListener::bind(&self.address),
